@@ -86,6 +86,7 @@ structure Turn where
   capped : Bool := false  -- the external-storage cap refuses this turn's upload before the flush (HTTP)
   unenc : Bool := false   -- the stream state cannot be serialized into the next cursor after this turn (HTTP exchange)
   extIn : ExtIn := .none  -- this turn's input is an external-location pointer
+  both : Bool := false    -- HTTP exchange: the resolved batch is kept (deferred release) when a cast replaces it
   deriving Repr
 
 inductive Kind | prod | xch
@@ -142,20 +143,22 @@ def turnFails (k : Kind) (t : Turn) : Bool :=
 /-- the external cap refuses the cycle (`checkExternalBudget`): only when there is a data batch -/
 def turnCapped (t : Turn) : Bool := (t.capped || t.unenc) && decide (t.emits ≥ 1)
 
-/-- The replacement input a turn owns while its handler runs: the cast batch if the input was cast
-(`releaseInput()` dropped the resolved batch when the cast replaced it), else the externally
-resolved batch, else nothing (the reader owns a plain input). -/
-def ownedInput (c : CastOutcome) (ei : ExtIn) (sz : Sizes) (i : Nat) : Ledger :=
-  if c = .ok then [(.cast i, sz.c)] else if ei = .ok then [(.extin i, sz.x)] else []
+/-- The replacement input(s) a turn owns while its handler runs. Pipe loop: the cast batch if the
+input was cast (`releaseInput()` dropped the resolved batch when the cast replaced it), else the
+externally resolved batch, else nothing. HTTP exchange (`both`): every replacement has its own
+deferred release, so a resolved AND cast input keeps both until the turn returns. -/
+def ownedInput (c : CastOutcome) (ei : ExtIn) (both : Bool) (sz : Sizes) (i : Nat) : Ledger :=
+  if c = .ok then (.cast i, sz.c) :: (if both && ei = .ok then [(.extin i, sz.x)] else [])
+  else if ei = .ok then [(.extin i, sz.x)] else []
 
-def preEvents (c : CastOutcome) (ei : ExtIn) (sz : Sizes) (i : Nat) : List Ev :=
+def preEvents (c : CastOutcome) (ei : ExtIn) (both : Bool) (sz : Sizes) (i : Nat) : List Ev :=
   (if ei = .ok then [Ev.acq (.extin i) sz.x] else []) ++
-  (if c = .ok then Ev.acq (.cast i) sz.c :: (if ei = .ok then [Ev.rel (.extin i)] else []) else [])
+  (if c = .ok then Ev.acq (.cast i) sz.c :: (if ei = .ok && !both then [Ev.rel (.extin i)] else []) else [])
 
-def postEvents (c : CastOutcome) (ei : ExtIn) (i : Nat) : List Ev :=
-  if c = .ok then [Ev.rel (.cast i)] else if ei = .ok then [Ev.rel (.extin i)] else []
+def postEvents (c : CastOutcome) (ei : ExtIn) (both : Bool) (i : Nat) : List Ev :=
+  if c = .ok then Ev.rel (.cast i) :: (if both && ei = .ok then [Ev.rel (.extin i)] else [])
+  else if ei = .ok then [Ev.rel (.extin i)] else []
 
-/-- Events of turn `i` and whether the stream goes on to the next turn. -/
 def turnEvents (k : Kind) (w : Wire) (sz : Sizes) (i : Nat) (t : Turn) : List Ev × Bool :=
   if t.end = .cancel then ([], false)                     -- cancel batch: break before anything
   else if t.extIn = .err then ([], false)                 -- external resolve error batch, nothing kept
@@ -165,8 +168,8 @@ def turnEvents (k : Kind) (w : Wire) (sz : Sizes) (i : Nat) (t : Turn) : List Ev
       -- cast error batch; a resolved external input is released by releaseInput()
       (if t.extIn = .ok then [Ev.acq (.extin i) sz.x, Ev.rel (.extin i)] else [], false)
     | c =>
-      let pre := preEvents c t.extIn sz i
-      let post := postEvents c t.extIn i
+      let pre := preEvents c t.extIn t.both sz i
+      let post := postEvents c t.extIn t.both i
       let handler := Ev.sample :: emitEvents i sz.e t.emits
       let held := if t.emits ≥ 1 then [Ev.rel (.emit i 0)] else []
       if turnFails k t then
